@@ -301,7 +301,7 @@ VALUES = ["5", "0", "-1", "-5", "2.5", "-2.5", "'mnist'", "\"~/tensorflow_datase
           "'```(None)```'", "'```None```'", "'None'", "dict(a=1)", "foo(1).bar", "'abc'.upper", "'s'[0]", "1e309",
           "[[1, 2], [3]]", "((1, 2), [3, {}])", "{'k': (1, -2)}", "[-1, +2.5]", "[-True]", "x if y else z", "b'x'", "1j",
           "-1j", "..."]
-TYPES = gen_module_ANNS = ["int", "str", "float", "bool", "Optional[int]", "Optional[str]", "List[str]",
+TYPES = ["int", "str", "float", "bool", "Optional[int]", "Optional[str]", "List[str]",
                            "Literal['a', 'b']", "Union[int, str]", "Dict[str, int]", "np.ndarray", "dict", "Optional[dict]",
                            "Tuple[int, str]", "object", "Any", "Callable[[int], str]", "tf.data.Dataset",
                            "Union[Tuple[tf.data.Dataset, tf.data.Dataset], Tuple[np.ndarray, np.ndarray]]",
